@@ -69,12 +69,33 @@ N_SHARDS_PER_ENC = 16
 def bounds(tier, seed):
     if tier == 'quick':
         return {'ragged_rows_max': 3, 'row_len_max': 3, 'flat_len_max': 4, 'matrix_shapes': [[2, 2], [3, 2], [1, 3], [0, 2]],
-                'depth': {'ragged profiles with (index + seed) % 4 == 0': 3, 'other ragged profiles': 2, 'flat': 3, 'matrix': 2},
+                'depth': {'ragged, <= 1 row': 3, 'ragged, 2 rows': 2,
+                          'ragged, 3 rows (core)': 1, 'ragged, 3 rows, extension slice (profile index + seed) % 4 == 0': 2,
+                          'flat': 3, 'matrix': 2},
                 'encodings': ENCS}
     return {'ragged_rows_max': 4, 'row_len_max': 4, 'flat_len_max': 5,
             'matrix_shapes': [[2, 2], [3, 2], [1, 3], [0, 2], [2, 3], [3, 3]],
-            'depth': {'ragged profiles with <= 3 rows of length <= 3': 4, 'ragged profiles with 4 rows or a row of length 4': 3,
-                      'flat': 4, 'matrix': 3}, 'encodings': ENCS}
+            'depth': {'ragged, <= 1 row': 4, 'ragged, 2 rows': 3, 'ragged, 3 rows of length <= 1': 3, 'ragged, other 3 rows': 2,
+                      'ragged, 4 rows of length <= 1': 2, 'ragged, other 4 rows': 1, 'flat': 4, 'matrix': 3},
+            'encodings': ENCS}
+
+
+def _ragged_depth(tier, seed, prof, idx_in_n):
+    n = len(prof)
+    mx = max(prof, default=0)
+    if tier == 'quick':
+        if n <= 1:
+            return 3
+        if n == 2:
+            return 2
+        return 2 if (idx_in_n + seed) % 4 == 0 else 1
+    if n <= 1:
+        return 4
+    if n == 2:
+        return 3
+    if n == 3:
+        return 3 if mx <= 1 else 2
+    return 2 if mx <= 1 else 1
 
 
 def roots(tier, seed):
@@ -83,30 +104,25 @@ def roots(tier, seed):
     b = bounds(tier, seed)
     out = []
     N, M = b['ragged_rows_max'], b['row_len_max']
-    idx = 0
     for n in range(0, N + 1):
-        for prof in itertools.product(range(M + 1), repeat=n):
-            if tier == 'quick':
-                depth = 3 if (idx + seed) % 4 == 0 else 2
-            else:
-                depth = 4 if (n <= 3 and max(prof, default=0) <= 3) else 3
-            out.append(({'kind': 'R', 'profile': list(prof)}, depth))
-            idx += 1
+        for k, prof in enumerate(itertools.product(range(M + 1), repeat=n)):
+            out.append(({'kind': 'R', 'profile': list(prof)}, _ragged_depth(tier, seed, prof, k)))
     for L in range(0, b['flat_len_max'] + 1):
-        out.append(({'kind': 'S', 'len': L}, 3 if tier == 'quick' else 4))
+        out.append(({'kind': 'S', 'len': L}, b['depth']['flat']))
     for shp in b['matrix_shapes']:
-        out.append(({'kind': 'M', 'shape': list(shp)}, 2 if tier == 'quick' else 3))
+        out.append(({'kind': 'M', 'shape': list(shp)}, b['depth']['matrix']))
     return out
 
 
 def _cost(root, depth):
+    """rough CPU-seconds (measured on this image) used only to balance shards"""
     if root['kind'] == 'R':
-        c = (1 + len(root['profile'])) * (1 + sum(root['profile']))
+        c = 1 + len(root['profile']) + sum(root['profile'])
     elif root['kind'] == 'S':
-        c = 2 + root['len']
+        c = 0.4 * (2 + root['len'])
     else:
-        c = 4 + root['shape'][0] * root['shape'][1]
-    return c * (9 ** depth)
+        c = 0.5 * (2 + root['shape'][0] * root['shape'][1])
+    return c * {0: 0.01, 1: 0.03, 2: 0.25, 3: 1.8, 4: 14.0}[depth]
 
 
 def shards(tier, seed):
@@ -115,14 +131,15 @@ def shards(tier, seed):
     out = []
     for enc in ENCS:
         bins = [[] for _ in range(N_SHARDS_PER_ENC)]
-        load = [0] * N_SHARDS_PER_ENC
+        load = [0.0] * N_SHARDS_PER_ENC
         for i in order:                       # greedy balancing by estimated cost
             k = load.index(min(load))
             bins[k].append(i)
             load[k] += _cost(*rs[i])
         for k in range(N_SHARDS_PER_ENC):
-            out.append({'enc': enc, 'part': '%s-%d' % (enc, k), 'roots': sorted(bins[k]), 'tier': tier, 'seed': seed})
-    out.sort(key=lambda d: -sum(_cost(*rs[i]) for i in d['roots']))
+            out.append({'enc': enc, 'part': '%s-%d' % (enc, k), 'roots': sorted(bins[k]), 'tier': tier, 'seed': seed,
+                        'est_cpu_s': round(load[k], 1)})
+    out.sort(key=lambda d: -d['est_cpu_s'])
     return out
 
 
@@ -240,7 +257,7 @@ def battery(st, enc):
         for i in range(-m, m):
             add('idx', 't[%d]' % i, 'C', s[i])
         for i in ((0, -1) if m else ()):
-            add('idx-to-string', 't[%d].to_string()' % i, 'T', s[i])
+            add('idx', 't[%d].to_string()' % i, 'T', s[i])
         for c in chars:
             add('eq-char', 't == %r' % c, 'B1', [x == c for x in s])
         add('ne-char', 't != %r' % present, 'B1', [x != present for x in s])
@@ -279,7 +296,7 @@ def battery(st, enc):
         for i in range(-n, n):
             add('row-int', 't[%d]' % i, 'S', rows[i])
         for i in ((0, -1) if n else ()):
-            add('row-to-string', 't[%d].to_string()' % i, 'T', rows[i])
+            add('row-int', 't[%d].to_string()' % i, 'T', rows[i])
         cells = [(i, j) for i in range(n) for j in range(len(rows[i]))]
         for i, j in cells:
             add('elem', 't[%d, %d]' % (i, j), 'C', rows[i][j])
@@ -297,13 +314,12 @@ def battery(st, enc):
         if nz and len(nz) < n:
             add('rows-col', 't[%r, 0]' % (nz,), 'S', ''.join(rows[i][0] for i in nz))
             add('rows-col', 't[%r, -1]' % (nz,), 'S', ''.join(rows[i][-1] for i in nz))
-        for i in sorted({0, n - 1} if n else ()):
-            add('row-colslice', 't[%d, 1:]' % i, 'S', rows[i][1:])
-            add('row-colslice', 't[%d, ::-1]' % i, 'S', rows[i][::-1])
+        if n:
+            add('row-colslice', 't[0, 1:]', 'S', rows[0][1:])
+            add('row-colslice', 't[%d, ::-1]' % (n - 1), 'S', rows[n - 1][::-1])
         bk = 'BR'
-        for c in chars:
-            add('eq-char', 't == %r' % c, bk, _eq(rows, c))
-        add('ne-char', 't != %r' % present, bk, [[x != present for x in r] for r in rows])
+        add('eq-char', 't == %r' % present, bk, _eq(rows, present))
+        add('ne-char', 't != %r' % chars[-1], bk, [[x != chars[-1] for x in r] for r in rows])
         add('eq-char-reflected', '%r == t' % present, bk, _eq(rows, present))
         other = S.perturbed_rows(rows, enc)
         if kind == 'R':
@@ -311,14 +327,13 @@ def battery(st, enc):
             add('eq-list', 't == %r' % (rows,), bk, [[True] * len(r) for r in rows])
         else:
             other_src = 'bnp.as_encoded_array(%r, ENC).reshape(%d, %d)' % (''.join(other), n, v[2])
-        add('eq-array', 't == ' + other_src, bk, [[a == b for a, b in zip(r, o)] for r, o in zip(rows, other)])
+        if kind == 'M':
+            add('eq-array', 't == ' + other_src, bk, [[a == b for a, b in zip(r, o)] for r, o in zip(rows, other)])
         add('ne-array', 't != ' + other_src, bk, [[a != b for a, b in zip(r, o)] for r, o in zip(rows, other)])
         add('mask-elem', 't[t == %r]' % present, 'S', ''.join(x for x in flat if x == present))
         add('concat-self', 'np.concatenate([t, t])', kind, rows + rows)
         if kind == 'R':
-            targets = sorted(set(rows))[:3] + [(rows[0] if n else '') + present]
-            if '' not in targets:
-                targets.append('')
+            targets = sorted(set(rows), key=lambda r: (-len(r), r))[:1] + ['']
             for s in targets:
                 add('str-equal', 'str_equal(t, %r)' % s, 'B1', [r == s for r in rows])
             add('str-equal-array', 'str_equal(t, %s)' % other_src, 'B1', [a == b for a, b in zip(rows, other)])
@@ -379,12 +394,15 @@ def signature(x):
             step = 1 if step is None else int(step)
             starts = np.asarray(sh.starts).ravel()
             ordered = bool(np.all(starts[1:] >= starts[:-1]))
-            return 'ragged/%s/%s/step=%d/%s' % (cls, 'contiguous' if x.is_contigous else 'view', step,
-                                               'ordered' if ordered else 'unordered')
+            buf = getattr(x, '_RaggedBase__data', None)
+            ro = getattr(getattr(buf, 'flags', None), 'writeable', True) is False
+            return 'ragged/%s/%s/step=%d/%s%s' % (cls, 'contiguous' if x.is_contigous else 'view', step,
+                                                 'ordered' if ordered else 'unordered', '/read-only' if ro else '')
         if isinstance(x, EncodedArray):
             d = x.data
             signs = ','.join('+' if s > 0 else ('-' if s < 0 else '0') for s in d.strides)
-            return 'array%dd/%s/%s' % (d.ndim, 'contiguous' if d.flags.c_contiguous else 'strided', signs)
+            return 'array%dd/%s/%s%s' % (d.ndim, 'contiguous' if d.flags.c_contiguous else 'strided', signs,
+                                        '' if d.flags.writeable else '/read-only')
     except Exception:
         pass
     return type(x).__name__
@@ -405,10 +423,12 @@ def decode(x, enc_obj):
     from bionumpy.encoded_array import EncodedArray, EncodedRaggedArray
     from npstructures import RaggedArray
     if isinstance(x, (EncodedRaggedArray, EncodedArray)):
-        try:
-            same = bool(x.encoding == enc_obj) or x.encoding is enc_obj
-        except Exception:
-            same = x.encoding is enc_obj
+        same = x.encoding is enc_obj
+        if not same:
+            try:
+                same = bool(x.encoding == enc_obj)
+            except Exception:
+                same = False
         try:
             if isinstance(x, EncodedRaggedArray):
                 return 'R', list(observe.column(x)), same
@@ -456,6 +476,17 @@ def _norm(rk, val):
     if rk in ('R', 'M', 'L'):
         return (rk, list(val))
     return (rk, val)
+
+
+def _snap(ns):
+    """namespace in which t and u are shallow copies (same attribute objects, same representation) of the real registers:
+    an observation that flattens its operand in place (npstructures ravel()) then leaves the real register unperturbed"""
+    import copy
+    out = dict(ns)
+    out['t'] = copy.copy(ns['t'])
+    if ns.get('u') is not None:
+        out['u'] = out['t'] if ns['u'] is ns['t'] else copy.copy(ns['u'])
+    return out
 
 
 class Run:
@@ -513,8 +544,10 @@ def _empty_class(v):
 
 def _features(op_name, phase, operand_value, operand_sig, exc=None):
     cls, step = repr_features(operand_sig)
-    f = {'op': op_name, 'phase': phase, 'on': operand_value[0], 'repr': cls, 'col_step': step,
-         'shape_class': _empty_class(operand_value), 'exc': None, 'frame': None}
+    f = {'op': op_name, 'phase': phase, 'on': operand_value[0], 'repr': cls,
+         'col_step': None if step is None else ('1' if step == 1 else 'not 1'),
+         'read_only': bool(operand_sig) and operand_sig.endswith('/read-only'),
+         'no_characters': S.size(operand_value) == 0, 'exc': None, 'frame': None}
     if exc is not None:
         f['exc'] = type(exc).__name__
         f['frame'] = '%s:%s' % raising_frame(exc)
@@ -523,7 +556,7 @@ def _features(op_name, phase, operand_value, operand_sig, exc=None):
 
 def judge_transition(run):
     """Execute the history on fresh objects and judge its last transition (value + encoding of t and u).
-    -> dict(status='ok'|'transition-failed'|'unsupported', fails=[(kind, features, expected, observed, tb, obs)], calls, sig, state)"""
+    -> dict(status='ok'|'transition-failed'|'unsupported', fails=[(kind, features, expected, observed, exc, obs)], calls, sig, state, ns)"""
     fails = []
     prev = run.states[-2] if run.hist else None
     last_op = run.hist[-1][0] if run.hist else 'root'
@@ -535,15 +568,16 @@ def judge_transition(run):
         if _is_unsupported(e.exc):
             return {'status': 'unsupported', 'fails': [], 'calls': len(run.hist) + 1}
         f = _features(last_op, 'transition', prev.t, _operand_signature(run), e.exc)
-        fails.append(('raises', f, 'succeeds', '%s: %s' % (type(e.exc).__name__, str(e.exc)[:200]), tb_string(e.exc), None))
+        fails.append(('raises', f, 'succeeds', '%s: %s' % (type(e.exc).__name__, str(e.exc)[:200]), e.exc, None))
         return {'status': 'transition-failed', 'fails': fails, 'calls': len(run.hist) + 1}
     enc_obj = ns['ENC'] if ns['ENC'] is not None else ns['bnp'].BaseEncoding
     st = run.final
-    sigs = (signature(ns['t']), signature(ns['u']) if st.u is not None else None)
+    sigs = _sigs(ns, st)
+    snap = _snap(ns)
     for reg, mv in (('t', st.t), ('u', st.u)):
         if mv is None:
             continue
-        rk, val, same = decode(ns[reg], enc_obj)
+        rk, val, same = decode(snap[reg], enc_obj)
         exp = _norm(mv[0], mv[1] if mv[0] == 'S' else list(mv[1]))
         if _norm(rk, val) != exp or same is False:
             opv = prev.t if prev is not None else st.t
@@ -552,42 +586,40 @@ def judge_transition(run):
                 fails.append(('value' if reg == 't' else 'saved-value', f, exp, _norm(rk, val), None, None))
             else:
                 fails.append(('encoding', f, repr(enc_obj), 'result has a different encoding', None, None))
-    return {'status': 'transition-failed' if fails else 'ok', 'fails': fails, 'calls': len(run.hist) + 1, 'sig': sigs, 'state': st}
+    if _sigs(ns, st) != sigs:
+        raise HarnessBug('observer perturbed the registers of %r' % (run.hist,))
+    return {'status': 'transition-failed' if fails else 'ok', 'fails': fails, 'calls': len(run.hist) + 1, 'sig': sigs, 'state': st,
+            'ns': ns}
 
 
-def judge_battery(run, sigs, only_obs=None):
-    """Evaluate the observation expressions of the final state, each on the unperturbed representation.
-    -> (fails, number of library calls, outcome labels)"""
+def _sigs(ns, st):
+    return (signature(ns['t']), signature(ns['u']) if st.u is not None else None)
+
+
+def judge_battery(run, ns, sigs, only_obs=None):
+    """Evaluate the observation expressions of the final state, each on the unperturbed representation
+    (shallow snapshots of the registers; checked afterwards).  -> (fails, number of library calls, outcome labels)"""
     fails, outcomes = [], []
     enc = run.enc
     st = run.final
     n_calls = 0
-    ns = None
-    dirty = True
+    enc_obj = ns['ENC'] if ns['ENC'] is not None else ns['bnp'].BaseEncoding
     for name, src, rk_exp, exp in battery(st, enc):
         if only_obs is not None and [name, src] != list(only_obs):
             continue
-        if dirty:
-            ns = run.execute()
-            if (signature(ns['t']), signature(ns['u']) if st.u is not None else None) != sigs:
-                raise HarnessBug('replay of %r gave a different representation' % (run.hist,))
-            n_calls += len(run.hist) + 1
-        enc_obj = ns['ENC'] if ns['ENC'] is not None else ns['bnp'].BaseEncoding
         n_calls += 1
         try:
-            x = eval(_compiled(src, 'eval'), ns)
+            x = eval(_compiled(src, 'eval'), _snap(ns))
         except Exception as e:
             _guard(e)
-            dirty = True
             if _is_unsupported(e):
                 outcomes.append(name + ':unsupported')
                 continue
             f = _features(name, 'observation', st.t, sigs[0], e)
-            fails.append(('raises', f, _norm(rk_exp, exp), '%s: %s' % (type(e).__name__, str(e)[:200]), tb_string(e), [name, src]))
+            fails.append(('raises', f, _norm(rk_exp, exp), '%s: %s' % (type(e).__name__, str(e)[:200]), e, [name, src]))
             outcomes.append(name + ':raises')
             continue
         rk, val, same = decode(x, enc_obj)
-        dirty = (signature(ns['t']), signature(ns['u']) if st.u is not None else None) != sigs
         got, want = _norm(rk, val), _norm(rk_exp, exp)
         if got != want:
             f = _features(name, 'observation', st.t, sigs[0])
@@ -599,6 +631,8 @@ def judge_battery(run, sigs, only_obs=None):
             outcomes.append(name + ':encoding')
         else:
             outcomes.append(name + ':ok')
+    if _sigs(ns, st) != sigs:
+        raise HarnessBug('an observation perturbed the registers of %r' % (run.hist,))
     return fails, n_calls, outcomes
 
 
@@ -616,6 +650,7 @@ def _operand_signature(run):
 # ------------------------------------------------------------------ exploration
 def explore(res, root, enc, depth, deadline):
     seen = set()
+    battery_seen = set()
     frontier = [()]
     n_states = 0
     for d in range(depth + 1):
@@ -636,8 +671,8 @@ def explore(res, root, enc, depth, deadline):
                 res.outcome('unsupported:' + run.hist[-1][0])
                 continue
             if r['status'] == 'transition-failed':
-                for kind, f, exp, obs, tb, ob in r['fails']:
-                    res.fail(kind, dict(case, obs=ob), f, expected=exp, observed=obs, tb=tb)
+                for kind, f, exp, obs, exc, ob in r['fails']:
+                    _record(res, kind, dict(case, obs=ob), f, exp, obs, exc)
                 res.outcome('pruned:%s:%s' % (r['fails'][0][0], run.hist[-1][0]))
                 continue
             st = r['state']
@@ -646,14 +681,19 @@ def explore(res, root, enc, depth, deadline):
                 res.outcome('merged')
                 continue
             seen.add(key)
-            fails, calls, outcomes = judge_battery(run, r['sig'])
+            bkey = (st.t, r['sig'][0])
+            if bkey in battery_seen:          # same value and representation of t under another saved register: only u is new
+                fails, calls, outcomes = judge_battery(run, r['ns'], r['sig'], only_obs=['saved-value', 'u'])
+            else:
+                battery_seen.add(bkey)
+                fails, calls, outcomes = judge_battery(run, r['ns'], r['sig'])
             res.transitions += calls
             res.states += 1
             n_states += 1
             if len(hist) >= 2 and S.size(st.t) >= 1:
                 res.nontrivial += 1
-            for kind, f, exp, obs, tb, ob in fails:
-                res.fail(kind, dict(case, obs=ob), f, expected=exp, observed=obs, tb=tb)
+            for kind, f, exp, obs, exc, ob in fails:
+                _record(res, kind, dict(case, obs=ob), f, exp, obs, exc)
             res.outcome('state:%s:%s%s' % (st.t[0], r['sig'][0], ':obs-failures' if fails else ''))
             for o in outcomes:
                 res.extra['observation ' + o] += 1
@@ -663,6 +703,13 @@ def explore(res, root, enc, depth, deadline):
         frontier = nxt
     res.sample({'root': root, 'enc': enc, 'depth': depth, 'states': n_states,
                 'source_of_one_deepest_history': Run(root, enc, frontier[len(frontier) // 2]).source() if frontier else None})
+
+
+def _record(res, kind, case, features, expected, observed, exc):
+    from engine.result import sig_key, MAX_EXEMPLARS
+    g = res.fail_groups.get(sig_key(kind, features))
+    need_tb = exc is not None and (g is None or len(g['exemplars']) < MAX_EXEMPLARS)     # tracebacks are costly to format
+    res.fail(kind, case, features, expected=expected, observed=observed, tb=tb_string(exc) if need_tb else None)
 
 
 def _freeze(op):
@@ -689,9 +736,9 @@ def replay_case(case):
     r = judge_transition(run)
     fails = r['fails']
     if r['status'] == 'ok' and case.get('obs') is not None:
-        fails, _, _ = judge_battery(run, r['sig'], only_obs=case['obs'])
-    return [{'kind': kind, 'features': f, 'expected': exp, 'observed': obs, 'traceback': tb}
-            for kind, f, exp, obs, tb, _ in fails]
+        fails, _, _ = judge_battery(run, r['ns'], r['sig'], only_obs=case['obs'])
+    return [{'kind': kind, 'features': f, 'expected': exp, 'observed': obs, 'traceback': tb_string(exc) if exc is not None else None}
+            for kind, f, exp, obs, exc, _ in fails]
 
 
 def repro_py(case):
